@@ -27,6 +27,45 @@ for pv in minecraft.SUPPORTED_PROTOCOL_VERSIONS:
 print(json.dumps(out, sort_keys=True))
 '''
 
+# tables computed through contexts that exist BEFORE the version records are extended at run time and the module tables
+# rebuilt (C08's histories): the table of a version must not change.  Prints the versions whose table changed.
+EXTENSION_SCRIPT = r'''
+import json, sys, importlib
+import minecraft
+from minecraft.networking.connection import ConnectionContext
+mods = {d + '.' + s: importlib.import_module('minecraft.networking.packets.%s.%s' % (d, s))
+        for d in ('clientbound', 'serverbound') for s in ('handshake', 'status', 'login', 'play')}
+def table(ctx):
+    row = {}
+    for tn, m in mods.items():
+        row[tn] = sorted((repr(k.get_id(ctx)), k.__module__.replace('minecraft.networking.packets.', '') + ':' + k.__qualname__) for k in m.get_packets(ctx))
+    return row
+sup = list(minecraft.SUPPORTED_PROTOCOL_VERSIONS)
+ctxs = {pv: ConnectionContext(protocol_version=pv) for pv in sup}
+before = {pv: table(c) for pv, c in ctxs.items()}
+changed = []
+recs = minecraft.KNOWN_MINECRAFT_VERSION_RECORDS
+for where, rec in ((len(recs) // 2, minecraft.Version('verif-mid', minecraft.PRE | 901, False)), (3, minecraft.Version('verif-early', 3000001, True)),
+                   (len(recs), minecraft.Version('verif-late', 3000002, True))):
+    recs.insert(min(where, len(recs)), rec)
+    minecraft.initglobals(use_known_records=True)
+    for pv, c in ctxs.items():
+        try:
+            after = table(c)
+        except Exception as e:
+            after = {'error': type(e).__name__}
+        if after != before[pv]:
+            tn = next((t for t in before[pv] if after.get(t) != before[pv][t]), 'error')
+            changed.append({'proto': pv, 'inserted': rec.id, 'table': tn, 'before': before[pv].get(tn), 'after': after.get(tn, after)})
+    if changed:
+        break
+def dup(c):
+    ids = [i for i, _k in c['after']] if isinstance(c['after'], list) else []
+    return len(ids) != len(set(ids))
+changed.sort(key=lambda c: not dup(c))
+print(json.dumps(changed[:6]))
+'''
+
 
 def reactor_tables(seed):
     e = common.sub_env()
@@ -129,6 +168,19 @@ def run(chk):
                 if got != [list(x) for x in exp] and got != exp:
                     chk.violation('reactor', 'reactor:%s:%s' % (pv, rn), {'case': {'proto': pv, 'reactor': rn}, 'expected': exp, 'observed': got},
                                   '%s decoder table at protocol %s is not {id: class} of its members' % (rn, pv))
+    # tables through contexts created before a run-time extension of the version records
+    e = common.sub_env()
+    p = subprocess.run([common.PY, '-B', '-c', EXTENSION_SCRIPT], env=e, stdout=subprocess.PIPE, stderr=subprocess.PIPE, timeout=600)
+    if p.returncode != 0:
+        chk.broken('extension-script', p.stderr.decode()[-1500:])
+    else:
+        chk.count('extension', 'three insertions x %d contexts' % nsup, True)
+        for c in json.loads(p.stdout.decode()):
+            ids = [i for i, _k in c['after']] if isinstance(c['after'], list) else []
+            dup = sorted(set(i for i in ids if ids.count(i) > 1))
+            what = ('protocol %d %s, asked through a context created before version %r was inserted and the tables rebuilt: ' % (c['proto'], c['table'], c['inserted']) +
+                    ('classes %s share id %s' % ([k.split(':')[-1] for i, k in c['after'] if i == dup[0]], dup[0]) if dup else 'the table changed (%s)' % (str(c['after'])[:120])))
+            chk.violation('extension', 'extension:%d:%s' % (c['proto'], c['table']), {'case': c}, what)
     chk.sample('tables', {'proto': 757, 'table': 'clientbound.play',
                           'ids': sorted((t['per_version'][-1]['classes'][c]['id'], c.split(':')[-1]) for c in t['per_version'][-1]['tables']['clientbound.play'])[:6]}, k=1)
     chk.assumptions += ['the reifier evaluates get_packets/get_id on every known version (determinism checked by double evaluation)']
